@@ -570,6 +570,33 @@ func ruleModes(c *Ctx) {
 		return true
 	})
 	if sw == nil {
+		// the switch may have been moved into a helper the baseline does not know (ioOpenFlags(option)):
+		// read it there
+		ast.Inspect(fd, func(n ast.Node) bool {
+			ce, ok := n.(*ast.CallExpr)
+			if !ok || sw != nil {
+				return true
+			}
+			id, ok := ce.Fun.(*ast.Ident)
+			if !ok {
+				return true
+			}
+			for _, f := range pk.Syntax {
+				for _, d := range f.Decls {
+					if x, ok := d.(*ast.FuncDecl); ok && x.Recv == nil && x.Name.Name == id.Name && x.Body != nil && !baselineFuncs[declKey(pk.PkgPath, x)] {
+						ast.Inspect(x, func(m ast.Node) bool {
+							if s, ok := m.(*ast.SwitchStmt); ok && sw == nil {
+								sw = s
+							}
+							return true
+						})
+					}
+				}
+			}
+			return true
+		})
+	}
+	if sw == nil {
 		c.und(R, "ioOpenFile:switch", p.pos(fd.Pos()), "mode switch not found")
 		return
 	}
